@@ -240,6 +240,8 @@ func (h *histState) step(i int, op *Op) {
 		h.doRead(i, op)
 	case "defaultcfg":
 		h.doDefaultCfg(i, op)
+	case "fresh":
+		h.doFresh(i, op)
 	case "probe":
 		h.doProbe(i, op)
 	case "direct":
@@ -907,4 +909,107 @@ func (h *histState) doDefaultCfg(i int, op *Op) {
 		}
 	}
 	h.log.Add("op %d defaultcfg reg=%d -> %d bytes %s", i, op.Reg, len(b), shortHash(string(bytes.TrimSpace(b))))
+}
+
+// doFresh: the registered constructor hands out independent instances. For
+// every configurable lint of the registry: configuring one instance with
+// non-default option values must leave the next constructed instance (and an
+// earlier one) at the constructor's defaults.
+func (h *histState) doFresh(i int, op *Op) {
+	reg := h.regs[op.Reg]
+	m := h.mregs[op.Reg]
+	n := 0
+	for _, name := range m.names() {
+		mm := h.meta.ByName[name]
+		if !mm.Configurable {
+			continue
+		}
+		ctor := func() any {
+			switch mm.Kind {
+			case KCert:
+				if l := reg.CertificateLints().ByName(name); l != nil {
+					return l.Lint()
+				}
+			case KCRL:
+				if l := reg.RevocationListLints().ByName(name); l != nil {
+					return l.Lint()
+				}
+			case KOCSP:
+				if l := reg.OcspResponseLints().ByName(name); l != nil {
+					return l.Lint()
+				}
+			}
+			return nil
+		}
+		a := ctor()
+		ac, ok := a.(lint.Configurable)
+		if !ok {
+			continue
+		}
+		def := exportedFingerprint(ac.Configure())
+		// a configuration that moves every option away from its default
+		var sb strings.Builder
+		fmt.Fprintf(&sb, "[%s]\n", name)
+		v := reflect.Indirect(reflect.ValueOf(ac.Configure()))
+		for _, f := range configurableFields(name) {
+			fv := fieldByTOMLName(v, f.Name)
+			switch f.Kind {
+			case "bool":
+				fmt.Fprintf(&sb, "%s = %v\n", f.Name, !(fv.IsValid() && fv.Bool()))
+			case "int":
+				x := int64(17)
+				if fv.IsValid() && fv.CanInt() {
+					x = fv.Int() + 17
+				}
+				fmt.Fprintf(&sb, "%s = %d\n", f.Name, x)
+			case "string":
+				fmt.Fprintf(&sb, "%s = \"zsim-not-the-default\"\n", f.Name)
+			}
+		}
+		cfg, err := lint.NewConfigFromString(sb.String())
+		if err != nil {
+			continue
+		}
+		b := ctor()
+		if err := cfg.MaybeConfigure(b, name); err != nil {
+			continue
+		}
+		moved := exportedFingerprint(b.(lint.Configurable).Configure()) != def
+		c := ctor()
+		n++
+		h.checks++
+		after := exportedFingerprint(c.(lint.Configurable).Configure())
+		still := exportedFingerprint(ac.Configure())
+		if after != def || still != def {
+			d := "an instance constructed after another instance was configured with non-default options does not start from the constructor's defaults"
+			if still != def {
+				d = "configuring one instance changed the option values of another instance handed out by the same constructor"
+			}
+			h.violate(Violation{Property: "C11", Class: "instance_not_fresh", Lint: name, Op: i, Detail: d + " (configuration leaks between runs)", Expected: clip(def, 200), Got: clip(after+" / "+still, 300)})
+			h.violate(Violation{Property: "C05", Class: "instance_retained", Lint: name, Op: i, Detail: d + " (a later lint call depends on an earlier one)", Expected: clip(def, 200), Got: clip(after+" / "+still, 300)})
+			h.violate(Violation{Property: "C04", Class: "instance_not_fresh", Lint: name, Op: i, Detail: d, Expected: clip(def, 200), Got: clip(after+" / "+still, 300)})
+		}
+		if moved {
+			h.ctr.inc("fresh_instances_options_moved")
+		}
+	}
+	h.log.Add("op %d fresh reg=%d -> %d configurable lints checked", i, op.Reg, n)
+}
+
+func fieldByTOMLName(v reflect.Value, key string) reflect.Value {
+	if v.Kind() != reflect.Struct {
+		return reflect.Value{}
+	}
+	t := v.Type()
+	for i := 0; i < t.NumField(); i++ {
+		f := t.Field(i)
+		name := f.Name
+		if tag := f.Tag.Get("toml"); tag != "" && tag != "-" {
+			name = strings.Split(tag, ",")[0]
+		}
+		if name == key {
+			return v.Field(i)
+		}
+	}
+	return reflect.Value{}
 }
